@@ -1,4 +1,4 @@
-"""C11 -- undo and redo are exact inverses (clauses R11.1-R11.8)."""
+"""C11 -- undo and redo are exact inverses (clauses R11.1-R11.10)."""
 from __future__ import annotations
 
 import ast
@@ -16,6 +16,7 @@ EXPLANATION = (
     "discipline -- emptiness guard dominates undo/redo, do clears redo and trims after every append, each "
     "_perform_* iteration moves exactly one element between the stacks.  R11.4: the dependency test is symmetric in "
     "containment.  R11.5: undo(drop=True) deletes exactly the N redo entries it just created.  R11.6: the properties of History (the limit among them) are pure read-throughs (no store into self).  Decides inverse *shape*, not content equality of trees."
+    " R11.9: the saved undo/redo lists are rebuilt in the order they were saved (writer direction x loader direction x insertion end, per slot).  R11.10: every constant-index pick of 'the last change' in undo/redo is [-1] (changes are appended)."
 )
 ASSUMPTIONS = ["_ResourceOperations primitives do what their names say (C13/C16 check notify and codec separately)"]
 
@@ -280,6 +281,33 @@ def check(ctx, res) -> None:
     from .c16 import undo_newline_rule
 
     undo_newline_rule(ctx, res, "R11.8")
+
+    # ---- R11.10 both history lists are stacks whose top is the BACK (append): whatever is picked as "the last change"
+    # is element -1
+    n10 = 0
+    for mname in ("undo", "redo", "_perform_undos", "_perform_redos"):
+        m = hist.methods.get(mname)
+        if m is None:
+            continue
+        for x in walk_local(m.node):
+            if isinstance(x, ast.Subscript) and isinstance(x.ctx, ast.Load) and canon(x.value) and not isinstance(x.slice, ast.Slice):
+                sl = x.slice
+                val = sl.value if isinstance(sl, ast.Constant) else (-sl.operand.value if isinstance(sl, ast.UnaryOp) and isinstance(sl.op, ast.USub)
+                                                                     and isinstance(sl.operand, ast.Constant) else None)
+                if not isinstance(val, int):
+                    continue
+                n10 += 1
+                ok = val == -1
+                res.add("R11.10", f"History.{mname}|top-of-stack:{canon(x.value)}#{n10}", ok, f"{m.unit.rel}:{x.lineno}",
+                        f"`{ast.unparse(x)}` is the most recent entry (changes are appended)" if ok else
+                        f"`{ast.unparse(x)}` is not the most recent entry of the list (changes are appended, so that is [-1]): undo()/redo() without argument "
+                        "pick the OLDEST change, and everything after it is undone/redone with it", function=m.qualname)
+    res.floor("R11.10", "top-of-stack reads in History", n10, 4)
+
+    # ---- R11.9 (=R12.12) the saved undo/redo lists come back in the order they were saved
+    from .c18 import history_order_rule
+
+    history_order_rule(ctx, res, "R11.9")
 
     # ---- R11.4 symmetric containment
     dep = idx.need_func("rope.base.history._FindChangeDependencies._depends_on")
